@@ -20,6 +20,14 @@ def orientF (o e p : Float × Float) : Int :=
 
 def encPt (p : Float × Float) : Sexp := .list [bitsAtom p.1.toBits, bitsAtom p.2.toBits]
 
+/-- A power of two `s` with `2^20 ≤ m·s < 2^21` (for `m > 0`; fuel bounds the search). -/
+def pow2Into (m : Rat) : Nat → Rat → Rat
+  | 0, s => s
+  | fuel + 1, s =>
+      if m * s < 1048576 then pow2Into m fuel (s * 2)
+      else if 2097152 ≤ m * s then pow2Into m fuel (s / 2)
+      else s
+
 def handle (op : String) (inp go : Sexp) : Option Reply :=
   match op, inp with
   | "C12.seg", .list [a, b, c, d] => do
@@ -39,8 +47,14 @@ def handle (op : String) (inp go : Sexp) : Option Reply :=
              | some ps =>
                 -- point accuracy and non-robust agreement only on integer-grid inputs; for floats
                 -- within ulps of a degenerate configuration only the classification is required
-                let small := [ea, eb, ec, ed].all fun p =>
-                  p.1.den == 1 && p.2.den == 1 && Exact.abs p.1 ≤ 1048576 && Exact.abs p.2 ≤ 1048576
+                -- (an integer grid up to 2^20, or such a grid scaled by a common power of two: scale the
+                -- figure back until its largest ordinate is in [2^20, 2^21) and look for whole numbers)
+                let mx := [ea, eb, ec, ed].foldl (fun m p => max m (max (Exact.abs p.1) (Exact.abs p.2))) 0
+                let sc := pow2Into mx 2200 1
+                let small := mx == 0 || ([ea, eb, ec, ed].all fun p =>
+                  (p.1 * sc).den == 1 && (p.2 * sc).den == 1) ||
+                  ([ea, eb, ec, ed].all fun p =>
+                  p.1.den == 1 && p.2.den == 1 && Exact.abs p.1 ≤ 1048576 && Exact.abs p.2 ≤ 1048576)
                 let v1 := C12.verdictRobust ea eb ec ed ty ps small
                 if v1 != "ok" then v1
                 else
